@@ -44,9 +44,12 @@ func vLivingDoc(role int, symbolic bool) vLiving {
 	s += "0 @I3@ INDI\n1 NAME Bob /Smith/\n1 BIRT\n2 DATE 1875\n1 DEAT\n2 DATE 1950\n1 FAMC @F1@\n"
 	s += "0 @L1@ INDI\n1 NAME " + l.given + " /" + surname + "/\n1 NAME " + l.altName + " /" + surname + "/\n2 TYPE aka\n1 SEX F\n"
 	s += "1 BIRT\n2 DATE " + VsDecimal(l.year, 4) + "\n2 PLAC " + place + "\n"
+	// further events of the living person, each at a place that carries the secret marker
+	s += "1 BAPM\n2 DATE " + VsDecimal(l.year, 4) + "\n2 PLAC " + l.place + " Chapel, Secretland\n1 RESI\n2 DATE 2010\n2 PLAC " + l.place + " Street\n"
 	switch vC17Roles[role] {
 	case "burial-but-no-death":
-		s += "1 BURI\n2 DATE 2020\n"
+		// end-of-life events without a death record: the person still counts as living
+		s += "1 BURI\n2 DATE 2020\n2 PLAC " + l.place + " Cemetery\n1 CREM\n2 PLAC " + l.place + " Crematorium\n1 PROB\n2 PLAC " + l.place + " Court\n"
 	}
 	fam := "0 @F1@ FAM\n1 HUSB @I1@\n1 WIFE @I2@\n1 CHIL @I3@\n"
 	switch vC17Roles[role] {
